@@ -40,8 +40,8 @@ use ruma_common::{
 };
 use ruma_events::{
     room::power_levels::{
-        NotificationPowerLevelType, PowerLevelAction, PowerLevelUserAction, RoomPowerLevels,
-        RoomPowerLevelsEventContent,
+        NotificationPowerLevelType, PowerLevelAction, PowerLevelUserAction, RedactedRoomPowerLevelsEventContent,
+        RoomPowerLevels, RoomPowerLevelsEventContent,
     },
     MessageLikeEventType, StateEventType,
 };
@@ -397,6 +397,34 @@ fn run_deser(toks: &[&str]) -> Outcome {
             }
         }
         Err(_) => t3.push("from_str accepts the content but from_value rejects it".into()),
+    }
+    // A client can also reach `RoomPowerLevels` from a REDACTED power-levels event. For the redaction
+    // rules of every room-version family: redact the content as the redaction algorithm does (the JSON
+    // the authorization rules then read), and compare the three routes to the helper's levels — the
+    // redacted JSON read as an ordinary content (the route all other operations validate against the
+    // authorization rules), the redacted JSON read as `RedactedRoomPowerLevelsEventContent`, and the
+    // typed `RedactContent::redact` of the original content.
+    if let Ok(ruma_common::CanonicalJsonValue::Object(obj)) = ruma_common::CanonicalJsonValue::try_from(c.clone()) {
+        for ver in [3u32, 9, 10, 11] {
+            let Some(rules) = h_lib::version_id(ver).rules() else { continue };
+            let mut red = obj.clone();
+            if ruma_common::canonical_json::redact_content_in_place(&mut red, &rules.redaction, T_PL).is_err() {
+                continue;
+            }
+            let red_text = serde_json::to_string(&red).unwrap();
+            let a = levels_of_str(&red_text).map(|p| format!("{p:?}"));
+            let b = serde_json::from_str::<RedactedRoomPowerLevelsEventContent>(&red_text)
+                .ok()
+                .map(|r| format!("{:?}", RoomPowerLevels::from(r)));
+            let typed = serde_json::from_str::<RoomPowerLevelsEventContent>(&text)
+                .ok()
+                .map(|o| format!("{:?}", RoomPowerLevels::from(ruma_events::RedactContent::redact(o, &rules.redaction))));
+            if a.is_none() || a != b {
+                t3.push(format!("room version {ver}: the redacted power-levels content {red_text} gives different helper levels as a redacted event ({b:?}) than as an ordinary content ({a:?})"));
+            } else if typed.is_some() && typed != a {
+                t3.push(format!("room version {ver}: RedactContent::redact of the typed content gives {typed:?}, the redaction algorithm on the JSON gives {a:?}"));
+            }
+        }
     }
     let mut s = format!(
         "ok {} {} {} {} {} {} {} {} e{}",
